@@ -772,7 +772,7 @@ def generate(seed, index):
         new_setup = []
         scan_cfgs = sorted({op["cfg"] for op in setup if op["op"] == "scan"})
         for op in setup:
-            if op["op"] == "scan" and xrng.random() < 0.3:
+            if op["op"] == "scan" and xrng.random() < 0.5:
                 # the request that is cut short is this one or another one of the session
                 new_setup.append({"op": "scan", "ev": "I" + op["ev"],
                                   "cfg": op["cfg"] if xrng.random() < 0.5 else xrng.choice(scan_cfgs),
